@@ -6,7 +6,7 @@ import SciVerif.Tie.Pins
 the Lean model transcribes, and the order of the decoding steps in `FinalizePaths`. -/
 namespace SciVerif.Tie
 -- functions the model relies on without an obligation of its own naming them (pinned by bin/mkpins):
--- PIN-ALSO: Scipipe.createDirs Scipipe.FileIP_createDirs Scipipe.FileIP_Path
+-- PIN-ALSO: Scipipe.createDirs Scipipe.FileIP_createDirs Scipipe.FileIP_Path Scipipe.FileIP_FinalizePath Scipipe.FileIP_OpenTemp Scipipe.FileIP_Open
 open SciVerif.Generated
 
 theorem generated_consts_c13 : constsMatch = true := by decide
@@ -52,12 +52,16 @@ theorem generated_o_case_for_c13 : oPlace = .temp ∧ renameSrcTemp = true := by
 
 
 
+
 -- BEGIN PINS (written by bin/mkpins; do not edit by hand)
 /-- the Go functions this property's model and obligations were written against have exactly the
 pinned skeletons (SHA-256 prefix of the atom list) -/
 theorem pinned_skeletons_c13 :
     pinsOk
     [("Scipipe.#decls", "7633eb8a74616d59"),
+     ("Scipipe.FileIP_FinalizePath", "cf8179072e56c7ba"),
+     ("Scipipe.FileIP_Open", "48d6413ed8457c06"),
+     ("Scipipe.FileIP_OpenTemp", "673ff13758b5aa90"),
      ("Scipipe.FileIP_Path", "c6a514b4100d9a7c"),
      ("Scipipe.FileIP_TempDir", "36eed961c5125267"),
      ("Scipipe.FileIP_TempPath", "7eba22a35232a5cb"),
